@@ -1,4 +1,5 @@
 // C18 - independent use from several threads is race free and gives sequential results
+#define HARNESS_MAIN_THREAD_CASES 1  // this harness owns its threads and per-thread baselines
 #include "common/lib.h"
 #include "common/ledger.h"
 #include <SQuIDS/SQuIDS.h>
